@@ -167,6 +167,68 @@ def C16(tier):
                    cases, None if bad is None else '%s: f(*%r, **%r) gave %r' % bad)]
 
 
+def C20(tier):
+    """Throttle under a virtual clock: starts in every window <= count + rate * width; Averager mean."""
+    import diskcache
+    from diskcache import recipes
+    from fractions import Fraction
+    bad = None
+    cases = 0
+    d = tempfile.mkdtemp()
+    try:
+        cache = diskcache.Cache(d)
+        for count, seconds in ((1, 1), (2, 1), (4, 2), (64, 0.015625), (8, 0.5)):
+            for pattern in ('burst', 'just-before-refill', 'trickle'):
+                clock = [0.0]
+                starts = []
+
+                def time_func():
+                    return clock[0]
+
+                spins = [0]
+
+                def sleep_func(x):
+                    assert x >= 0
+                    spins[0] += 1
+                    if spins[0] > 100000:
+                        raise RuntimeError('throttle does not make progress under the virtual clock')
+                    clock[0] += x
+
+                @recipes.throttle(cache, count, seconds, name='t-%s-%s-%s' % (count, seconds, pattern),
+                                  time_func=time_func, sleep_func=sleep_func)
+                def f():
+                    starts.append(clock[0])
+                rate = count / float(seconds)
+                for i in range(40 if tier == 'quick' else 200):
+                    if pattern == 'just-before-refill' and i % 3 == 0:
+                        clock[0] += max(0.0, (1.0 / rate) * (1 - 2.0 ** -12))
+                    elif pattern == 'trickle':
+                        clock[0] += 0.25 / rate
+                    before = clock[0]
+                    f()
+                    cases += 1
+                for i in range(len(starts)):
+                    for j in range(i, len(starts)):
+                        n = j - i + 1
+                        allowed = count + rate * (starts[j] - starts[i]) + 1e-6
+                        if n > allowed and bad is None:
+                            bad = (count, seconds, pattern, n, starts[i], starts[j], allowed)
+        av = recipes.Averager(cache, 'avg')
+        vals = [1.5, 2.5, -4.0, 10.0]
+        for k, v in enumerate(vals):
+            av.add(v)
+            cases += 1
+            if abs(av.get() - sum(vals[:k + 1]) / (k + 1)) > 1e-9 and bad is None:
+                bad = ('averager', k, av.get())
+        if av.pop() is None or av.get() is not None:
+            bad = bad or ('averager pop',)
+    finally:
+        shutil.rmtree(d, ignore_errors=True)
+    return [result('C20.standin.throttle_window_and_averager', bad is None,
+                   '5 rates x 3 arrival patterns x 40-200 calls under a virtual clock; all windows', cases,
+                   None if bad is None else repr(bad))]
+
+
 def main():
     pid, tier = sys.argv[1], (sys.argv[2] if len(sys.argv) > 2 else 'quick')
     f = globals().get(pid)
